@@ -35,7 +35,7 @@ pub fn run(args: &Args) {
         let nfull = sp.n();
         for p in &plan {
             let n = p["n"].as_u64().unwrap() as usize;
-            if n > nfull || (!args.thorough && rng.below(4) != 0) {
+            if n > nfull {
                 continue;
             }
             // the base model: the first n components of the specification
@@ -43,12 +43,14 @@ pub fn run(args: &Args) {
             let kind = p["kind"].as_str().unwrap();
             let map = usv(&p["map"]);
             let arg = p["arg"].as_u64().unwrap() as usize;
-            let res = guarded(std::panic::AssertUnwindSafe(|| event(&sp, &base_spec, n, kind, &map, arg, &mut rng.clone())));
-            match res {
-                Ok(ev) => tr.ev(ev),
-                Err(m) => tr.ev(json!({"ev":"Panic","model":sp.name,"kind":kind,"map":map,"msg":m})),
+            for _rep in 0..(if args.thorough { 4 } else { 1 }) {
+                let res = guarded(std::panic::AssertUnwindSafe(|| event(&sp, &base_spec, n, kind, &map, arg, &mut rng.clone())));
+                match res {
+                    Ok(ev) => tr.ev(ev),
+                    Err(m) => tr.ev(json!({"ev":"Panic","model":sp.name,"kind":kind,"map":map,"msg":m})),
+                }
+                rng.next();
             }
-            rng.next();
         }
     }
     let n = tr.finish();
